@@ -255,7 +255,7 @@ pub fn def(ctx: &Ctx) -> PropertyDef {
         scenarios.push(program_scenario(p, awaited_oracle(), move |_c| IlvCfg {
             bounds: if quick { if two { vec![0, 1] } else { vec![0, 1, 2] } } else if two { vec![0, 1, 2] } else { vec![0, 1, 2, 3] },
             workers,
-            split_depth: 5,
+            split_depth: 6,
             time_cap_s: Some(if quick { 20.0 } else { 400.0 }),
             max_executions: None,
         }));
